@@ -152,7 +152,7 @@ def rule_runwide_state(ctx, rep):
             return isinstance(base, ast.Name) and ("codemod" in base.id.lower() or base.id == "self")
         return False
 
-    for fn in ctx.prog.functions.values():
+    for fn in ctx.prog.live_functions():
         if fn.qname == init.qname:
             continue
         r = ctx.resolver(fn)
@@ -212,7 +212,7 @@ def rule_detector_fresh(ctx, rep):
               "some path of SemgrepRuleDetector.apply returns something other than a fresh semgrep run (stale findings whose positions pre-date earlier rewrites)")
     allowed = {"files_for_rule", "all_rule_ids"}
     n = 0
-    for f in ctx.prog.functions.values():
+    for f in ctx.prog.live_functions():
         for node in walk_no_nested(f.node):
             if isinstance(node, ast.Attribute) and node.attr == "semgrep_prefilter_results" and isinstance(node.ctx, ast.Load):
                 n += 1
